@@ -212,6 +212,37 @@ func (w *World) monitorAllDelivered(prop string) {
 }
 
 func init() {
+	// the pending ranges of both levels straddle the 14-bit wrap at every restart
+	register("restartwrap", func() *Scenario {
+		s := scenarios["restart"]()
+		s.Preset = true
+		s.PresetSeq = [2]uint{0x3fff, 0x3fff}
+		s.Config.AtLeastOnceMax, s.Config.ExactlyOnceMax = 3, 3
+		s.Actors[1].Ops = []Op{
+			{Kind: "pub1", Topic: "t/1", Msg: []byte("m1-aaaa")},
+			{Kind: "pub2", Topic: "t/2", Msg: []byte("m2-bbbb")},
+			{Kind: "pub1", Topic: "t/3", Msg: []byte("m3-cccc")},
+			{Kind: "pub2", Topic: "t/4", Msg: []byte("m4-dddd")},
+		}
+		s.Gens[0][1].Ops = []Op{
+			{Kind: "pub2", Topic: "t/5", Msg: []byte("m5-eeee")},
+			{Kind: "pub1", Topic: "t/6", Msg: []byte("m6-ffff")},
+		}
+		// acknowledgements of the first generation are withheld: everything stays pending
+		var w0 *World
+		s.Init = func(w *World) { w0 = w }
+		s.Mute = func(p *Packet) bool { return w0 != nil && w0.gen == 0 && p.Type == tPUBLISH }
+		prev := s.Final
+		s.Final = func(w *World) {
+			if w.gen == 0 {
+				w.monitorWire() // nothing completes while the acknowledgements are withheld
+				return
+			}
+			prev(w)
+			w.monitorOrder()
+		}
+		return s
+	})
 	register("restart", func() *Scenario {
 		return &Scenario{
 			Config: baseConfig(),
